@@ -164,7 +164,7 @@ def kw_counter_models(rows: Optional[List[Dict]] = None) -> List[Tuple[Dict, Any
     bad = []
     for r in rows:
         sp = kw_spec(r["function"], r["callee"], r["keyword"])
-        for o in KW_OWN_GRID + [0, "TCP"]:
+        for o in KW_OWN_GRID + [0, "TCP", "HTTP"]:
             for a in (KW_ALT_GRID if (r["alt_key"] or (sp and sp[1])) else [XR.ABSENT]):
                 got = XR.evaluate(r["expr"], own=o, dflt=a)
                 if sp is None or (r["own_key"], r["alt_key"]) != (sp[0], sp[1]):
@@ -226,8 +226,16 @@ def place_kw(row: Dict, own, alt) -> Optional[Dict]:
     if kind is None or row["callee"] != "add_rule":
         return None
     side = "dst" if row["keyword"].startswith("dst") else "src"
+    # only values a well-formed file can carry there are written into a scenario ('' as an ADDRESS, 0, a text that is no port name are
+    # refused loudly by add_rule / the lookup tables under every version of the loader: those grid points stay with the theorem)
+    is_addr = lambda v: v is XR.ABSENT or v is None or (isinstance(v, str) and v.count(".") == 3)
     if row["keyword"] in ("src_ip_address", "dst_ip_address"):
+        if not (is_addr(own) and is_addr(alt)):
+            return None
         return [place_acl(kind, a, side, own, alt, row["own_key"], row["alt_key"] or None) for k, a in ACL_HOLDERS if k == kind]
+    if row["keyword"] not in ("src_port", "dst_port", "protocol") or not (own is XR.ABSENT or own in (None, "", "HTTP", "TCP")) \
+            or (own == "HTTP") != (row["keyword"] != "protocol") and own in ("HTTP", "TCP"):
+        return None
     out = []
     for k, a in ACL_HOLDERS:
         if k == kind:
